@@ -58,7 +58,7 @@ var targets = []string{
 var jobMethods = map[string]bool{"importPcapJob": true, "updateTagJob": true, "mergeIndexesJob": true, "convertStreamJob": true}
 
 type stats struct {
-	Spawned, JobBegin, JobPost, Clock, Ticker, MapRange, MapRangeSkipped, IOPoints, NumCPU, KnobSnap, KnobCleanup, WorkerIdle int
+	Creates, Spawned, JobBegin, JobPost, Clock, Ticker, MapRange, MapRangeSkipped, IOPoints, NumCPU, KnobSnap, KnobCleanup, WorkerIdle int
 }
 
 func fail(format string, a ...any) {
@@ -598,6 +598,15 @@ func (rw *rewriter) rewriteExprs() {
 				x.Fun = &ast.SelectorExpr{X: ast.NewIdent("simrt"), Sel: ast.NewIdent("Now")}
 				rw.usedRT = true
 				rw.st.Clock++
+			} else if p == "os" && nm == "Create" && rw.pkg != "cmd/pkappa2" {
+				// R8: disk error injection seam
+				x.Fun = &ast.SelectorExpr{X: ast.NewIdent("simrt"), Sel: ast.NewIdent("OSCreate")}
+				rw.usedRT = true
+				rw.st.Creates++
+				rw.file.Decls = append(rw.file.Decls, &ast.GenDecl{Tok: token.VAR, Specs: []ast.Spec{&ast.ValueSpec{
+					Names:  []*ast.Ident{ast.NewIdent("_")},
+					Values: []ast.Expr{&ast.SelectorExpr{X: ast.NewIdent("os"), Sel: ast.NewIdent("Args")}},
+				}}})
 			} else if p == "runtime" && nm == "NumCPU" {
 				x.Fun = &ast.SelectorExpr{X: ast.NewIdent("simrt"), Sel: ast.NewIdent("NumCPU")}
 				rw.usedRT = true
